@@ -26,6 +26,7 @@ const sigAuthOffset = 4 + 32 + 67*32 // index, R, WOTS signature (w=16, n=32)
 // Result is what one executed episode reports.
 type Result struct {
 	Digest     string           `json:"digest"`
+	ObsDigest  string           `json:"obs_digest,omitempty"` // wallet episodes: digest of what was observed of the original key
 	Steps      int64            `json:"steps"`
 	Faults     core.Counter     `json:"faults"`
 	Probes     core.Counter     `json:"probes"`
@@ -91,6 +92,7 @@ type observation struct {
 	pkSeed  []byte
 	mnem    string
 	hexSeed string
+	addrRefused string
 }
 
 func observe(x *xmss.XMSS, full bool) (o observation, oc outcome) {
@@ -102,8 +104,14 @@ func observe(x *xmss.XMSS, full bool) (o observation, oc outcome) {
 		o.root = append([]byte(nil), x.GetRoot()...)
 		o.pkSeed = append([]byte(nil), x.GetPKSeed()...)
 		if full {
-			o.addr = x.GetAddress()
-			o.legacy = x.GetLegacyAddress()
+			// a key whose descriptor names an unsupported address format refuses to
+			// derive an address: then the refusal is the (stable) observation
+			if ao := guard(func() { o.addr = x.GetAddress() }); ao.panicked {
+				o.addrRefused = "refused:" + ao.pval
+			}
+			if ao := guard(func() { o.legacy = x.GetLegacyAddress() }); ao.panicked {
+				o.addrRefused += "|legacy refused:" + ao.pval
+			}
 			o.mnem = x.GetMnemonic()
 			o.hexSeed = x.GetHexSeed()
 		}
@@ -132,7 +140,7 @@ func (a *observation) diff(b *observation, full bool) string {
 		d = append(d, "GetPKSeed")
 	}
 	if full {
-		if a.addr != b.addr {
+		if a.addr != b.addr || a.addrRefused != b.addrRefused {
 			d = append(d, "GetAddress")
 		}
 		if a.legacy != b.legacy {
@@ -325,10 +333,13 @@ func RunXMSS(ep *Episode) *Result {
 	switch ep.Ctor {
 	case "", "seed":
 		x.live, oc = build(seed, ep.Height, x.hashFn)
-	case "ext":
+	case "ext", "extfmt":
 		var e [common.ExtendedSeedSize]uint8
 		oc = guard(func() {
 			d := xmss.NewQRLDescriptor(ep.Height, x.hashFn, common.XMSSSig, common.SHA256_2X).GetBytes()
+			if ep.Ctor == "extfmt" { // a descriptor with non-default address-format bits
+				d[1] |= 0x10
+			}
 			copy(e[:3], d[:])
 			copy(e[3:], seed[:])
 			x.live = xmss.NewXMSSFromExtendedSeed(e)
@@ -350,7 +361,14 @@ func RunXMSS(ep *Episode) *Result {
 		x.violate("C01", "construct-failed", x.cfgSig()+",ctor="+ep.Ctor, "constructor panicked: "+oc.pval)
 		return res
 	}
-	if ep.Twin != "none" {
+	if ep.Twin != "none" && ep.Ctor == "extfmt" {
+		// NewXMSSFromSeed cannot express this descriptor: the twin comes from the same extended seed
+		oc = guard(func() { x.twin = xmss.NewXMSSFromExtendedSeed(x.live.GetExtendedSeed()) })
+		if oc.panicked {
+			x.violate("C01", "construct-failed", x.cfgSig(), "second NewXMSSFromExtendedSeed panicked: "+oc.pval)
+			return res
+		}
+	} else if ep.Twin != "none" {
 		x.twin, oc = build(seed, ep.Height, x.hashFn)
 		if oc.panicked {
 			x.violate("C01", "construct-failed", x.cfgSig(), "second NewXMSSFromSeed panicked: "+oc.pval)
@@ -815,6 +833,9 @@ func (x *xexec) twinAdvance(from, to uint32) {
 }
 
 func (x *xexec) rebuild(form string) (k *xmss.XMSS, oc outcome) {
+	if form == "seed" && x.ep.Ctor == "extfmt" {
+		form = "ext" // (seed, height, hash) does not carry the non-default descriptor bits
+	}
 	oc = guard(func() {
 		switch form {
 		case "seed":
